@@ -29,7 +29,7 @@ THEOREM_MODULES.append("Yarel.Props.FnsTie.Statements")
 REQUIRED_THEOREMS += ["emit_return_skeleton", "return_statement_skeleton", "throw_statement_skeleton", "try_statement_skeleton",
                       "try_statement_no_clause", "try_flag_brackets_the_try_block"]
 # who writes the state the mechanism models are about: the set of write sites per group of fields, regenerated on every run (Props/StateWrites)
-THEOREM_MODULES.append("Yarel.Props.StateWrites")
+THEOREM_MODULES.append("Yarel.Props.StateWrites.writers_of_exception_state")
 REQUIRED_THEOREMS += ['writers_of_exception_state']
 LEVEL = "proof"
 ASSUMPTIONS = [
